@@ -58,9 +58,9 @@ EXPECTED_PROBES = ["overlapping_requests_same_key", "acquire_blocked",
                    "archive_served", "local_zone_after_set_tz"]
 
 CLASSES = {
-    "threads": dict(quick=3000, thorough=80000, timeout=40),
-    "deep":    dict(quick=3000, thorough=80000, timeout=40),
-    "hist":    dict(quick=3000, thorough=80000, timeout=40),
+    "threads": dict(quick=5000, thorough=80000, timeout=40),
+    "deep":    dict(quick=5000, thorough=80000, timeout=40),
+    "hist":    dict(quick=5000, thorough=80000, timeout=40),
 }
 
 
